@@ -447,7 +447,7 @@ class Check(PropertyCheck):
     theorems = ["LLBuild.DirTree." + t for t in [
         "C12_tree_recipe_is_modelled", "C12_struct_recipe_is_modelled", "C12_nil_marker_extracted",
         "C12_tree_sig_injective", "C12_struct_sig", "C12_content_edit_keeps_struct_sig",
-        "C12_add_remove_retype_changes_struct_sig", "C12_filter_exact", "C12_F32_before_repair"]]
+        "C12_add_remove_retype_changes_struct_sig", "C12_change_at_any_depth", "C12_filter_exact", "C12_F32_before_repair"]]
     extractors = ["x_dirtree", "x_codec"]
     harnesses = []
     level = "proof"
@@ -481,7 +481,7 @@ class Check(PropertyCheck):
         if ctx.thorough:
             nh, depth, fan, cap, nb = 1400, 6, 6, 60, 10
         else:
-            nh, depth, fan, cap, nb = 400, 4, 4, 24, 8
+            nh, depth, fan, cap, nb = 300, 4, 4, 24, 8
         jobs = [(h, ctx.seed, exe, scratch, depth if h % 3 else 2, fan, cap, nb) for h in range(nh)]
         with ThreadPoolExecutor(max_workers=16) as ex:
             outs = list(ex.map(run_history, jobs))
